@@ -46,9 +46,10 @@ from harness import tlc
 from harness.drive import acked
 files, R, out = json.load(open(sys.argv[1][1:])) if sys.argv[1].startswith("@") else json.loads(sys.argv[1]), int(sys.argv[2]), sys.argv[3]
 res = []
-for f in files:
+for n, f in enumerate(files):
     beh = tlc.parse_sim_file(Path(f))
-    r = acked.replay(beh, R)
+    # every fourth behaviour is replayed with messages of identical content (told apart by their Syn only)
+    r = acked.replay(beh, R, same_payload=(n % 4 == 3))
     r["actions"] = [acked._js(s["last"]) for _, s in beh[1:]]
     res.append(r)
 json.dump(res, open(out, "w"))
